@@ -15,6 +15,8 @@ import (
 	"strconv"
 	"strings"
 	"sync"
+	"sync/atomic"
+	"time"
 
 	"github.com/WuKongIM/WuKongIM/pkg/db"
 	metadb "github.com/WuKongIM/WuKongIM/pkg/db/meta"
@@ -460,6 +462,12 @@ func genC15(g *Gen) {
 				} else {
 					g.Count("cand:route-gen-explicit")
 				}
+			}
+			if g.R.Chance(4) {
+				g.Count("conc")
+				g.Op("conc", "%s %d %d", k.id, k.ty, g.R.Range(2, 6))
+				delete(last, k)
+				continue
 			}
 			switch g.R.Pick(40, 12, 10, 6, 8, 12, 12) {
 			case 0:
@@ -1040,6 +1048,109 @@ func (r *c15Runner) Step(op string) string {
 			out += " " + k.id + "/" + strconv.FormatInt(k.ty, 10) + "=" + r.get(k.id, k.ty)
 		}
 		return out
+	case "conc":
+		// concurrent upserts (rising leader epochs) and retention advances on ONE channel; the output is a
+		// trace with logical stamps (one atomic counter): U:<ack>:<result>:<ce>:<le>, A:<ack>:<result>:<rs>,
+		// R:<start>:<row>.  Not compared with the model (schedule dependent); judged for linearizable
+		// monotonicity: a read that starts after a write was acknowledged must not be behind that write.
+		if len(f) != 4 {
+			return "bad-op"
+		}
+		ty, err := strconv.ParseInt(f[2], 10, 64)
+		rounds, err2 := strconv.Atoi(f[3])
+		if err != nil || err2 != nil || rounds < 0 || rounds > 16 || f[1] == "-" {
+			return "bad-op"
+		}
+		id := f[1]
+		var clock atomic.Int64
+		var mu sync.Mutex
+		var events []string
+		rec := func(e string) {
+			mu.Lock()
+			events = append(events, e)
+			mu.Unlock()
+		}
+		pre := r.get(id, ty)
+		for round := 0; round < rounds; round++ {
+			row, ok, gerr := shard.GetChannelRuntimeMeta(ctx, id, ty)
+			if gerr != nil {
+				return "err:" + strings.ReplaceAll(gerr.Error(), " ", "_")
+			}
+			if !ok {
+				_, _ = shard.UpsertChannelRuntimeMeta(ctx, metadb.ChannelRuntimeMeta{ChannelID: id, ChannelType: ty, ChannelEpoch: 1,
+					LeaderEpoch: 1, Replicas: []uint64{1, 2}, ISR: []uint64{1, 2}, Leader: 1, MinISR: 1, LeaseUntilMS: 10})
+				continue
+			}
+			if row.LeaderEpoch > ^uint64(0)-8 || row.RetentionThroughSeq > ^uint64(0)-8 {
+				break
+			}
+			const k = 2
+			steered := round%2 == 0
+			var unlock func()
+			if steered {
+				unlock = metadb.VerifLockHashSlot(c15Store.Meta(), r.hs)
+			}
+			var wg sync.WaitGroup
+			for j := 1; j <= k; j++ {
+				wg.Add(1)
+				go func(j int) {
+					defer wg.Done()
+					c := row
+					c.Replicas = append([]uint64(nil), row.Replicas...)
+					c.ISR = append([]uint64(nil), row.ISR...)
+					c.LeaderEpoch = row.LeaderEpoch + uint64(j)
+					c.LeaseUntilMS = row.LeaseUntilMS + 1
+					c.RouteGeneration = 0
+					res, uerr := shard.UpsertChannelRuntimeMeta(ctx, c)
+					ack := clock.Add(1)
+					out := "other"
+					switch {
+					case uerr == nil && res == metadb.MonotonicApplied:
+						out = "applied"
+					case uerr == nil && res == metadb.MonotonicIgnoredStale:
+						out = "stale"
+					case errors.Is(uerr, db.ErrConflict):
+						out = "conflict"
+					}
+					rec(fmt.Sprintf("U:%d:%s:%d:%d", ack, out, c.ChannelEpoch, c.LeaderEpoch))
+				}(j)
+			}
+			if steered {
+				time.Sleep(300 * time.Microsecond)
+			}
+			for j := 1; j <= k; j++ {
+				wg.Add(1)
+				go func(j int) {
+					defer wg.Done()
+					rs := row.RetentionThroughSeq + uint64(j)
+					aerr := shard.AdvanceChannelRetentionThroughSeq(ctx, metadb.ChannelRetentionAdvance{ChannelID: id, ChannelType: ty,
+						ExpectedChannelEpoch: row.ChannelEpoch, ExpectedLeaderEpoch: row.LeaderEpoch, ExpectedLeader: row.Leader,
+						ExpectedLeaseUntilMS: row.LeaseUntilMS, RetentionThroughSeq: rs, RetentionUpdatedAtMS: row.RetentionUpdatedAtMS + 1})
+					ack := clock.Add(1)
+					rec(fmt.Sprintf("A:%d:%s:%d", ack, c15Err2(aerr), rs))
+				}(j)
+			}
+			wg.Add(1)
+			go func() {
+				defer wg.Done()
+				for i := 0; i < 3; i++ {
+					start := clock.Add(1)
+					rec(fmt.Sprintf("R:%d:%s", start, r.get(id, ty)))
+				}
+			}()
+			if steered {
+				time.Sleep(300 * time.Microsecond)
+				unlock()
+			}
+			wg.Wait()
+			start := clock.Add(1)
+			rec(fmt.Sprintf("R:%d:%s", start, r.get(id, ty)))
+		}
+		ev := "-"
+		if len(events) > 0 {
+			ev = strings.Join(events, ";")
+		}
+		return "pre=" + pre + " post=" + r.get(id, ty) + " E=" + ev
 	case "adv":
 		if len(f) != 9 {
 			return "bad-op"
